@@ -55,6 +55,8 @@ func (o c18op) String() string {
 		return fmt.Sprintf("AddKnownPathRegexpMapping(%q,%q)", c18regexps[o.Arg][0], c18regexps[o.Arg][1])
 	case "removere":
 		return fmt.Sprintf("RemoveKnownPathRegexpMapping(%q)", c18regexps[o.Arg][0])
+	case "Reset":
+		return "Reset()"
 	}
 	return "ResetKnownPathRegexpMapping()"
 }
@@ -69,6 +71,7 @@ func c18ops() []c18op {
 		ops = append(ops, c18op{"addre", i}, c18op{"removere", i})
 	}
 	ops = append(ops, c18op{"resetre", 0})
+	ops = append(ops, c18op{"Reset", 0}) // slog.Reset(): level and flags only; the mapping tables stay as they are
 	return ops
 }
 
@@ -91,6 +94,8 @@ func c18apply(o c18op) {
 		slog.RemoveKnownPathRegexpMapping(c18regexps[o.Arg][0])
 	case "resetre":
 		slog.ResetKnownPathRegexpMapping()
+	case "Reset":
+		slog.Reset()
 	}
 }
 
@@ -176,6 +181,9 @@ func c18oracle(in, out string, t c18tables, privacy, reFlag bool, cwd string) (c
 				if loc[0] == 0 && strings.HasPrefix(out, in[:loc[1]]) {
 					return "protected-prefix-hidden", fmt.Sprintf("%q matches the regexp mapping %q at its start but is reported as %q", in, r[0], out)
 				}
+				if m := in[loc[0]:loc[1]]; loc[0] > 0 && len(m) > 1 && strings.Contains(out, m) && !strings.Contains(re.ReplaceAllString(m, r[1]), m) && !equivalentShorterRel(in, out, cwd) {
+					return "protected-prefix-hidden", fmt.Sprintf("%q contains %q, which the regexp mapping %q=>%q protects, but is reported as %q", in, m, r[0], r[1], out)
+				}
 			}
 		}
 	}
@@ -204,6 +212,7 @@ type c18case struct {
 	Path    string  `json:"path"`
 	Perm    []int   `json:"perm"`
 	Via     string  `json:"via"` // Safety | SafetyFiles | record
+	Chdir   string  `json:"chdir,omitempty"` // the process changes its working directory to this one first
 }
 
 func permutations(n int) [][]int {
@@ -233,6 +242,7 @@ func permutations(n int) [][]int {
 
 func c18expand(p string) string {
 	home, cwd := slog.VerifHomeCwd()
+	p = strings.ReplaceAll(p, "${CWDUP}", filepath.Dir(cwd))
 	return strings.ReplaceAll(strings.ReplaceAll(p, "${HOME}", home), "${CWD}", cwd)
 }
 
@@ -252,7 +262,8 @@ func c18paths(_, _ string) []string {
 	ps := []string{home, home + "/a.go", home + "kit/a.go", home + "/x" + home + "/y.go", home + "/", cwd + "/a.go", cwd, cwd + "x/b.go",
 		"/Volumes/V/p/a.go", "/Volumes/V", "/x/Volumes/V/p/a.go", "/", "", "rel/a.go", "./a.go", "../a.go", "/" + strings.Repeat("d/", 150) + "f.go",
 		"/data/12/x.go", "/data/x/y.go", "/mnt/abc/q.go", "/opt/secret/deep/f.go", "/opt/secretive/f.go", "/opt/secret/deeper/f.go", "/optional/f.go",
-		"/srv/x/opt/secret/f.go", "/opt/secret/opt/secret/f.go", "/vault/customer-x/src/a.go", "/vault/customer-x", "/vault/customer-xy/a.go"}
+		"/srv/x/opt/secret/f.go", "/opt/secret/opt/secret/f.go", "/vault/customer-x/src/a.go", "/vault/customer-x", "/vault/customer-xy/a.go",
+		"${CWDUP}/zz.go", "${CWDUP}", "/tmp/zz.go", "/var/zz/a.go", "/srv/Volumes/V2/q/a.go"}
 	for _, m := range c18plain {
 		ps = append(ps, m[0], m[0]+"/f.go", m[0]+"x/f.go")
 	}
@@ -285,6 +296,11 @@ func c18build(ops []c18op) c18tables {
 
 func c18evalOne(cas c18case, t c18tables) *Violation {
 	c18setFlags(cas.Privacy, cas.ReFlag)
+	if cas.Chdir != "" {
+		if old, err := os.Getwd(); err == nil && os.Chdir(cas.Chdir) == nil {
+			defer os.Chdir(old)
+		}
+	}
 	cwd, _ := os.Getwd()
 	perm := cas.Perm
 	slog.VerifPermHook = func(n int) []int {
@@ -359,7 +375,7 @@ func c18evalOne(cas c18case, t c18tables) *Violation {
 		for _, o := range cas.Ops {
 			tt = append(tt, o.String())
 		}
-		sig := fmt.Sprintf("C18|%s|path=%q|tables=%s|privacy=%v regexp=%v", clause, trunc(c18symbolic(in), 60), c18symbolic(t.key()), cas.Privacy, cas.ReFlag)
+		sig := fmt.Sprintf("C18|%s|path=%q|tables=%s|privacy=%v regexp=%v|chdir=%s", clause, trunc(c18symbolic(in), 60), c18symbolic(t.key()), cas.Privacy, cas.ReFlag, cas.Chdir)
 		return mkViolation(sig, clause, detail+fmt.Sprintf(" [via %s; iteration order %v; tables %s; history %s]", cas.Via, cas.Perm, t.key(), strings.Join(tt, "; ")), cas)
 	}
 	if pan != "" {
@@ -492,7 +508,7 @@ func c18run(c *Ctx) {
 		for _, privacy := range []bool{true, false} {
 			for _, re := range []bool{true, false} {
 				for pi, p := range paths {
-					for _, perm := range perms {
+					for pj, perm := range perms {
 						via := "Safety"
 						if pi%5 == 4 {
 							via = "SafetyFiles"
@@ -503,6 +519,16 @@ func c18run(c *Ctx) {
 							c.Violate(v)
 						} else {
 							c.Outcome(p + "=>" + c18lastOut)
+						}
+						if pj == 0 && (si%8 == 0 || c.Thorough()) {
+							// the same after the process changed its working directory (to /, and to the temp directory)
+							for _, dir := range []string{"/", os.TempDir()} {
+								cas.Chdir = dir
+								c.Count("evaluations", 1)
+								if v := c18evalOne(cas, t); v != nil {
+									c.Violate(v)
+								}
+							}
 						}
 					}
 				}
